@@ -469,7 +469,8 @@ class Runner:
                     res.ok("C19", "records_in_order")
             complete = err is None
             steps = [c["step"] for c in scal]
-            offs = {0, n * cls.get("starts", 0)}
+            # warm-up steps of an off-policy learner are environment steps too (C05: exactly learning_starts per environment)
+            offs = {n * cls.get("starts", 0)}
             if complete and "C10" in props:
                 if len(steps) != iters:
                     res.fail("C10", "num_iterations", "wrong_number_of_iterations", got=len(steps), expected=iters, total=total, n=n, T=T)
